@@ -452,6 +452,7 @@ type OnCall struct {
 	Ensures  []*Clause
 	Havoc    bool
 	NoHavoc  bool
+	Also     bool // extra preconditions only: the callee's own contract (or the unknown-call rule) still applies
 	Site     int      // 0 = every call site; k = only the k-th call site (source order)
 	Modifies []string // field paths rooted at a Go variable that the callee may change even though they are `stable`
 	Returns  SExpr
@@ -486,8 +487,10 @@ type FuncContract struct {
 	Ensures   []*Clause
 	Modifies  []SExpr
 	ModAll    bool
+	FrameAssumed bool // `frame assumed`: the modifies list is used at call sites but not checked against the body
 	Pure      bool
 	Loops     map[int]*LoopSpec
+	Maintain  []*Clause // running invariants: proved, then assumed, after every top-level statement of the body
 	Ghosts    []GhostDecl
 	OnCalls   []*OnCall
 	Stable    []string
@@ -754,12 +757,14 @@ func (db *ContractDB) loadFile(path, pkgPath string) {
 				for _, f := range strings.FieldsFunc(rest, func(r rune) bool { return r == ',' || r == ' ' }) {
 					cur.Stable = append(cur.Stable, f)
 				}
-			case "requires", "ensures", "invariant", "assert", "atend":
+			case "requires", "ensures", "invariant", "assert", "atend", "maintain":
 				c := parseClause(kw, rest, l.no)
 				if c == nil {
 					continue
 				}
 				switch {
+				case kw == "maintain":
+					cur.Maintain = append(cur.Maintain, c)
 				case kw == "atend":
 					if curLoop == nil {
 						errf(l.no, "atend outside loop")
@@ -795,6 +800,12 @@ func (db *ContractDB) loadFile(path, pkgPath string) {
 					continue
 				}
 				curLoop.Decreases, curLoop.DecSrc = e, rest
+			case "frame":
+				if strings.TrimSpace(rest) != "assumed" || cur == nil {
+					errf(l.no, "expected 'frame assumed'")
+					continue
+				}
+				cur.FrameAssumed = true
 			case "modifies":
 				if curOn != nil {
 					for _, f := range strings.FieldsFunc(rest, func(r rune) bool { return r == ',' || r == ' ' }) {
@@ -911,6 +922,12 @@ func (db *ContractDB) loadFile(path, pkgPath string) {
 					continue
 				}
 				curOn.NoHavoc = true
+			case "also":
+				if curOn == nil {
+					errf(l.no, "also outside 'on call'")
+					continue
+				}
+				curOn.Also = true
 			case "returns":
 				if curOn == nil {
 					errf(l.no, "returns outside 'on call'")
